@@ -98,8 +98,11 @@ def _dicom_bytes(ts, pad):
 class _Q(object):
     def __init__(self):
         self.items = []
+        self.complete_at_put = []
 
     def put(self, x):
+        # the service thread may take the message the moment it is queued: it must be complete then
+        self.complete_at_put.append(isinstance(x, tuple) and len(x) == 2 and getattr(x[0], 'data_set', None) is not None)
         self.items.append(x)
 
 
@@ -256,6 +259,10 @@ def run_case(case):
                                              % (via, got, gi + 1, len(groups), 2 if second else 1, want, where)))
                                 break
                             if got:
+                                if (raw or mode != 'memory') and not prov.to_service_user.complete_at_put[-1]:
+                                    viol.append((sig + ':queued-before-complete:' + via, '%s queued the message for the service user before its data set was '
+                                                 'attached (%s)' % (via, where)))
+                                    break
                                 item = prov.to_service_user.items[-1]
                                 if not (isinstance(item, tuple) and len(item) == 2):
                                     viol.append((sig + ':delivery-shape', '%s delivered %r' % (via, item)))
